@@ -48,9 +48,13 @@ structure Policy where
   /-- set when the sketch was re-seeded and new hashes are needed -/
   reseeded : Bool := false
   lastWasEvict : Bool := false
+  /-- ghost (maintained by the driver only): nodes whose introducing event (add / update as the new node) was processed;
+      the driver rejects a trace that introduces a node twice — the one hypothesis of Proofs.PolicyLink.Reach -/
+  introduced : List Nat := []
   deriving Inhabited
 
-def Policy.node (p : Policy) (id : Nat) : Node := (p.nodes.find? (·.id == id)).getD { id := id, key := 0, weight := 0 }
+def Policy.node (p : Policy) (id : Nat) : Node :=
+  { (p.nodes.find? (·.id == id)).getD { id := id, key := 0, weight := 0 } with id := id }
 
 def Policy.setNode (p : Policy) (n : Node) : Policy :=
   { p with nodes := n :: p.nodes.filter (·.id != n.id) }
@@ -126,6 +130,14 @@ def makeDead (p : Policy) (id : Nat) : Policy :=
   let p := if dqContains p (p.node id).qt id then dqDelete (discount p id) (p.node id).qt id else p
   let n := p.node id
   if n.st != .dead then p.setNode { n with st := .dead } else p
+
+/-- the table creates a node (before any event about it reaches the policy) -/
+def mkNode (p : Policy) (id key w : Nat) (st : NState) : Policy := p.setNode { id := id, key := key, weight := w, st := st }
+
+/-- the table removes an entry: its node goes from alive to retired (the delete event reaches the policy later) -/
+def retire (p : Policy) (id : Nat) : Policy :=
+  let n := p.node id
+  if n.st == .alive then p.setNode { n with st := .retired } else p
 
 /-- policy.delete -/
 def delete (p : Policy) (id : Nat) : Policy := makeDead p id
@@ -343,6 +355,22 @@ def determineAdjustment (p : Policy) : Policy :=
 
 def iToU64 (i : Int) : BitVec 64 := BitVec.ofInt 64 i
 
+/-- increaseWindow's choice of the next node to move: the probation head if it fits the quota, else the protected head -/
+def incPick (p : Policy) (quota : Int) : Option Nat × Bool :=
+  match p.probation.head? with
+  | some c => if quota < ((p.node c).weight : Int) then (p.prot.head?, false) else (some c, true)
+  | none => (p.prot.head?, false)
+
+/-- move node `c` from the main space to the back of the window -/
+def incMove (p : Policy) (c : Nat) (probation : Bool) : Policy :=
+  let nd := p.node c
+  let w := nd.weight
+  let p := if probation then dqDelete p 1 c
+    else dqDelete { p with mainProtectedWeightedSize := p.mainProtectedWeightedSize - w64 w } 2 c
+  let p := { p with windowWeightedSize := p.windowWeightedSize + w64 w }
+  let p := dqPushBack p 0 c
+  p.setNode { nd with qt := 0 }
+
 def increaseWindow (p : Policy) : Policy :=
   if p.mainProtectedMaximum == 0 then p
   else
@@ -353,26 +381,24 @@ def increaseWindow (p : Policy) : Policy :=
       match i with
       | 0 => (p, quota)
       | i + 1 =>
-        let (cand, probation) := match p.probation.head? with
-          | some c => if quota < ((p.node c).weight : Int) then (p.prot.head?, false) else (some c, true)
-          | none => (p.prot.head?, false)
-        match cand with
+        match (incPick p quota).1 with
         | none => (p, quota)
         | some c =>
-          let nd := p.node c
-          let w := nd.weight
+          let w := (p.node c).weight
           if quota < (w : Int) then (p, quota)
-          else
-            let quota := quota - w
-            let p := if probation then dqDelete p 1 c
-              else dqDelete { p with mainProtectedWeightedSize := p.mainProtectedWeightedSize - w64 w } 2 c
-            let p := { p with windowWeightedSize := p.windowWeightedSize + w64 w }
-            let p := dqPushBack p 0 c
-            let p := p.setNode { nd with qt := 0 }
-            go p quota i
+          else go (incMove p c (incPick p quota).2) (quota - w) i
     let (p, quota) := go p quota 1000
     { p with mainProtectedMaximum := p.mainProtectedMaximum + iToU64 quota, windowMaximum := p.windowMaximum - iToU64 quota,
              adjustment := quota }
+
+/-- move node `c` from the window to the back of probation -/
+def decMove (p : Policy) (c : Nat) : Policy :=
+  let nd := p.node c
+  let w : Int := nd.weight
+  let p := { p with windowWeightedSize := p.windowWeightedSize - iToU64 w }
+  let p := dqDelete p 0 c
+  let p := dqPushBack p 1 c
+  p.setNode { nd with qt := 1 }
 
 def decreaseWindow (p : Policy) : Policy :=
   if BitVec.ule p.windowMaximum 1 then p
@@ -387,16 +413,9 @@ def decreaseWindow (p : Policy) : Policy :=
         match p.window.head? with
         | none => (p, quota)
         | some c =>
-          let nd := p.node c
-          let w : Int := nd.weight
+          let w : Int := (p.node c).weight
           if quota < w then (p, quota)
-          else
-            let quota := quota - w
-            let p := { p with windowWeightedSize := p.windowWeightedSize - iToU64 w }
-            let p := dqDelete p 0 c
-            let p := dqPushBack p 1 c
-            let p := p.setNode { nd with qt := 1 }
-            go p quota i
+          else go (decMove p c) (quota - w) i
     let (p, quota) := go p quota 1000
     { p with mainProtectedMaximum := p.mainProtectedMaximum - iToU64 quota, windowMaximum := p.windowMaximum + iToU64 quota,
              adjustment := -quota }
